@@ -38,8 +38,8 @@ CLAIM = ("Every admissible parameter vector within K deviations of the default (
          "fields whose failure modes are parameter- and region-dependent formulas, which lattice + region coverage exposes.")
 LEVEL_NOTE = ("trusted: numpy, the geometry of props/C13.py and xpmc/x_c13_burn.py (regions, tangent lines, segment-sphere distance); "
               "assumed: defects confined to parameter values or points between lattice values are not seen")
-BOUND = {"quick": "K=2 deviations (Kenamond2, Kenamond3), full product (Kenamond1, CylindricalExpansion)",
-         "thorough": "K=3 deviations (Kenamond2), full product (Kenamond1, Kenamond3, CylindricalExpansion)"}
+BOUND = {"quick": "K=3 deviations (Kenamond2), full product (Kenamond1, Kenamond3, CylindricalExpansion)",
+         "thorough": "K=4 deviations (Kenamond2), full product (Kenamond1, Kenamond3, CylindricalExpansion)"}
 RULE = ("tasks = all parameter vectors with <=K deviations from the default over each family's alphabet; per vector one polar point "
         "lattice (288 points in 2D, 1464 in 3D) + detonators + shadow-boundary points + straddling pairs; an evaluation is one public "
         "solver call (a batch of points); a case (family, vector, lattice point) is non-trivial when the point lies in an explosive, "
@@ -52,8 +52,9 @@ ASSUMPTIONS = [
     "at a lattice point lying on, or within a stencil width of, a locus where two arrival branches cross (gradient undefined; recognised from the returned values as a concave kink) the eikonal equation is evaluated on both sides of it, 1e-2 L away, instead",
 ]
 
-K = {"quick": {"Kenamond1": 4, "Kenamond2": 2, "Kenamond3": 2, "CylindricalExpansion": 7},
-     "thorough": {"Kenamond1": 4, "Kenamond2": 3, "Kenamond3": 6, "CylindricalExpansion": 7}}
+# the quick tier is what used to be the thorough one (50 s on 12 cores); the thorough tier goes one deviation further for Kenamond2
+K = {"quick": {"Kenamond1": 4, "Kenamond2": 3, "Kenamond3": 6, "CylindricalExpansion": 7},
+     "thorough": {"Kenamond1": 4, "Kenamond2": 4, "Kenamond3": 6, "CylindricalExpansion": 7}}
 
 STEPS = (1e-3, 1e-4, 1e-5)        # x L
 # Tolerances (class A, closed form).  Measured on the thorough lattice of the unchanged tree (see report):
